@@ -205,8 +205,10 @@ def explore_harness(ctx, name, bound, opcodes=False, max_exec=None):
     # that the parent never starts threads before forking)
     res = ctx.pmap(_first_level, [(name, bound, opcodes)])
     x_choices, roots, npts, v0 = res[0]
-    chunks = [roots[i::64] for i in range(64)]
-    chunks = [c for c in chunks if c]
+    # one shard per few roots, handed out dynamically: subtrees below early deviations are by far
+    # the largest, so fine granularity is what balances the 16 workers
+    per = max(1, len(roots) // 400)
+    chunks = [roots[i:i + per] for i in range(0, len(roots), per)]
     out = ctx.pmap(explore_roots, [(name, h.spec(), c, bound, opcodes, max_exec) for c in chunks])
     execs = 1 + sum(o[0] for o in out)
     pts = npts + sum(o[1] for o in out)
